@@ -504,6 +504,19 @@ def oracles_sync(op, S0, S1, out, hist, stats):
                             if rewritten:
                                 v.append(viol("C09", "A2-prose", op, "%s.%s is described as %r, the truth says %r" % (name, nme, have, want), lost=not have, **common))
                             break
+            # types clause, judged independently where both sides spell the type as an annotation (class attribute <-> function
+            # parameter): the annotation text is the same modulo quotes and white space
+            if names == truth["names"] and op["truth"] in ("class", "function") and kind in ("class", "function") and kind != op["truth"]:
+                td, md = truth["details"], resolver.interface_details(node, kind)
+                for nme in names:
+                    want, have = (td.get(nme) or {}).get("typ"), (md.get(nme) or {}).get("typ")
+                    if want and have and _ws(want) != _ws(have):
+                        b0 = _tree(S0.get(f))
+                        r0 = resolver.resolve(b0, path) if b0 is not None else None
+                        if r0 is None or not isinstance(r0["node"], NODE_TYPE[kind]) or resolver.norm_dump(r0["node"]) != resolver.norm_dump(node):
+                            stats["a2_type_mismatch"] = stats.get("a2_type_mismatch", 0) + 1
+                            v.append(viol("C09", "A2-type", op, "%s.%s is annotated %s, the truth says %s" % (name, nme, have, want), tchange="%s->%s" % (want.split("[")[0], have.split("[")[0]), **common))
+                        break
             # A3 only where sync actually wrote the definition (F01: existing function-kind targets are never rewritten)
             b_tree0 = _tree(S0.get(f))
             rb0 = resolver.resolve(b_tree0, path) if b_tree0 is not None else None
